@@ -156,13 +156,17 @@ Section Defs.
   Definition wf_funcs (tt : typetable) (fs : pydict signature) : bool :=
     negb (has_dup (dkeys fs)) && forallb (fun ns => wf_sig (type_known tt) (snd ns)) fs.
 
-  Definition wf_mdomain (dpre deff : nat) (m : mdomain) : bool :=
+  (* [tyk] / [ck]: the "declared type" / "constant" tests the actions are checked against *)
+  Definition wf_mdomain_gen (tyk ck : string -> bool) (dpre deff : nat) (m : mdomain) : bool :=
     wf_types (d_types m) && wf_consts (d_types m) (d_consts m) && wf_preds (d_types m) (d_preds m) &&
     wf_funcs (d_types m) (d_funcs m) &&
     negb (has_dup (dkeys (d_actions m))) &&
     forallb (fun na => String.eqb (fst na) (ma_name (snd na)) &&
-                       wf_action (type_known (d_types m)) (dmem (d_consts m)) (d_preds m) (d_funcs m) dpre deff (snd na))
+                       wf_action tyk ck (d_preds m) (d_funcs m) dpre deff (snd na))
             (d_actions m).
+
+  Definition wf_mdomain (dpre deff : nat) (m : mdomain) : bool :=
+    wf_mdomain_gen (type_known (d_types m)) (dmem (d_consts m)) dpre deff m.
 
   (* ---------- constants representable at the printed precision ---------- *)
   Fixpoint tree_nums (t : mtree) : list float :=
